@@ -23,6 +23,8 @@ func main() {
 		os.Exit(cmdCheck(os.Args[2:]))
 	case "facts":
 		os.Exit(cmdFacts(os.Args[2:]))
+	case "pinparams":
+		os.Exit(cmdPinParams(os.Args[2:]))
 	case "layout":
 		os.Exit(cmdLayout(os.Args[2:]))
 	case "mutants":
@@ -93,6 +95,7 @@ func runProperty(prop, tier, repo, verif, outDir string, overlay map[string][]by
 }
 
 func analyse(prop, tier, repo, verif string, overlay map[string][]byte) *report.Rep {
+	loadPinnedParams(verif)
 	r := report.New(prop, tier)
 	r.Explain = rules.Explain[prop]
 	c := &rules.Ctx{Repo: repo, Verif: verif, Tier: tier, Overlay: overlay, R: r}
